@@ -381,7 +381,7 @@ def constants_of(c, maxlevel=0, dev=False):
     return defs, consts
 
 
-def run_mc(chk, name, maxlevel, dev=False, expect_error=False, dump=None, view=True, timeout=900):
+def run_mc(chk, name, maxlevel, dev=False, expect_error=False, dump=None, view=True, timeout=900, simulate=None, seed=None):
     c = CONFIGS[name]
     defs, consts = constants_of(c, maxlevel, dev)
     lines = ["SPECIFICATION Spec", "CONSTRAINT Bound", "CHECK_DEADLOCK FALSE"]
@@ -390,8 +390,10 @@ def run_mc(chk, name, maxlevel, dev=False, expect_error=False, dump=None, view=T
     lines += ["PROPERTY P_" + m for m in MONITORS + ["DesignSane"]]
     mod = "MCgen_COV_" + name
     files, cfg = tlc.mc_wrapper(mod, "COV", defs, lines, consts)
-    res = tlc.run_tlc(mod, cfg_text=cfg, files=files, timeout=timeout, dump_dot=dump,
-                      name="COV/%s depth %d%s" % (name, maxlevel, " Dev_RenewKeepsOldParams" if dev else ""))
+    res = tlc.run_tlc(mod, cfg_text=cfg, files=files, timeout=timeout, dump_dot=dump, simulate=simulate,
+                      depth=maxlevel if simulate else None, seed=seed,
+                      name="COV/%s depth %d%s%s" % (name, maxlevel, " Dev_RenewKeepsOldParams" if dev else "",
+                                                    " simulate %d" % simulate if simulate else ""))
     if not expect_error:
         chk.tlc(res)
         if res["error_kind"]:
@@ -471,17 +473,41 @@ def classify(ops, step):
     return cases
 
 
-def sig_for(monitor, ops, step):
+def sig_for(monitor, ops, step, st=None):
+    """Signature of a violation = the input class: which kind of parameter-changing renewal (if any) the failing
+    step goes back to.  Looks at the requests made so far and at where the outputs of the failing step differ from
+    the latest request of their key; it only names the class, the verdict was TLC's."""
     cases = classify(ops, step)
-    life = [c for c in cases if c["case"] == "renew_changes_lifetime"]
-    conf = [c for c in cases if c["case"] == "renew_changes_confirmed"]
-    if monitor == "ConfirmedAsRequested" and conf:
-        return conf[0]
-    if monitor in ("TimeRemaining", "ActiveListExact", "OnePerBurstPerSubscription", "AckThenInitial",
-                   "NothingAfterCancelOrExpiry", "RenewReplaces") and life:
-        return life[0]
-    if monitor == "ActiveListExact" and conf:
-        return conf[0]
+    n_to_0 = {"case": "renew_changes_lifetime", "from": "N", "to": 0}
+    cur = {}
+    for e in ops[:step]:
+        k = (e["s"], e["p"], e["o"])
+        if e["op"] == "sub":
+            cur[k] = (e["c"], e["l"])
+        elif e["op"] == "cancel":
+            cur.pop(k, None)
+    conf_mis, life_mis = False, None
+    if st is not None:
+        seen = [((i + 1, n["p"], n["o"]), n) for i, seq in enumerate(st["out"]) for n in seq if n["t"] == "note"]
+        seen += [((a["s"], a["p"], a["o"]), a) for a in st["alist"]]
+        for k, n in seen:
+            if k in cur:
+                c, l = cur[k]
+                if n["conf"] != c:
+                    conf_mis = True
+                if (n["tr"] == 0) != (l == 0) and life_mis is None:
+                    life_mis = {"case": "renew_changes_lifetime", "from": "N" if l == 0 else 0, "to": 0 if l == 0 else "N"}
+    if monitor == "ConfirmedAsRequested" and conf_mis and {"case": "renew_changes_confirmed"} in cases:
+        return {"case": "renew_changes_confirmed"}
+    if monitor in ("TimeRemaining", "ActiveListExact") and life_mis and life_mis in cases:
+        return life_mis
+    if monitor == "ActiveListExact" and conf_mis and {"case": "renew_changes_confirmed"} in cases:
+        return {"case": "renew_changes_confirmed"}
+    stale = st is not None and any(r["life"] != 0 and not r["armed"] for lst in st["subs"] for r in lst)
+    if st is not None and (st["stuck"] or st["alen"] == -2 or stale) and n_to_0 in cases:
+        return n_to_0           # a stale, by now negative, time remaining cannot be encoded: queue blocked / read fails
+    if monitor == "Terminates" and n_to_0 in cases:
+        return n_to_0
     return {"case": "other", "op": ops[step - 1]["op"] if 0 < step <= len(ops) else "?"}
 
 
@@ -541,7 +567,7 @@ def validate(chk, cname, traces, label):
             for m, ls in sorted(byname.items()):
                 l = min(ls)
                 e = evs[l - 1]
-                sg = sig_for(m, t["ops"], l)
+                sg = sig_for(m, t["ops"], l, e["st"])
                 key = (m, json.dumps(sg, sort_keys=True))
                 cnt = chk.extra.setdefault("violating_traces_by_signature", {})
                 cnt["%s %s" % key] = cnt.get("%s %s" % key, 0) + 1
@@ -848,19 +874,21 @@ def main(tier, seed):
     run_mc(chk, "pair", 8 if thorough else 6)
     run_mc(chk, "subs", 10 if thorough else 8)
     run_mc(chk, "crit", 10 if thorough else 8)
+    # beyond the exhaustive bound of the full configuration: random behaviours of depth 12
+    run_mc(chk, "full", 12, simulate=40000 if thorough else 2000, seed=seed + 1)
     # sanity / vacuity: the named deviation (F11) must be caught by the properties
     run_mc(chk, "subs", 6, dev=True, expect_error=True)
     # R: spec -> code
     traces = collections.defaultdict(list)
     tid = 0
-    for cname, depth, cap in (("g_subs", 5 if thorough else 4, 4000 if thorough else 700),
-                              ("g_crit", 5 if thorough else 4, 4000 if thorough else 700)):
+    for cname, depth, cap in (("g_subs", 5 if thorough else 4, 13000 if thorough else 700),
+                              ("g_crit", 5 if thorough else 4, 12000 if thorough else 700)):
         for ops in replay_graph(chk, cname, depth, cap, rng):
             tid += 1
             rec = record(cname, ops=ops)
             traces[cname].append({"tid": tid, "ops": rec["ops"], "rec": rec})
     # T: code -> spec
-    nrand = 1500 if thorough else 160
+    nrand = 4000 if thorough else 300
     for i in range(nrand):
         cname = "t1" if i % 2 == 0 else "t2"
         c = CONFIGS[cname]
